@@ -217,6 +217,13 @@ func TestCheck(t *testing.T) {
 			cases = append(cases, prog.Case{PageSize: 65536, Start: 16383, Ops: ops})
 			nLock++
 		}
+		// One database just over 4 GiB (65537 pages of 64 KiB): grow, shrink back (byte offsets beyond 32 bits in the
+		// truncate), write the last page. About four minutes and 20 GB of memory on its own.
+		cases = append(cases, prog.Case{PageSize: 65536, Start: 65537, Ops: []prog.Op{
+			r(pager.RTx{NewSize: 65539, Mods: []uint32{2}, Final: "DELETE", Outcome: "commit"}),
+			r(pager.RTx{NewSize: 65537, Final: "DELETE", Outcome: "commit"}),
+			r(pager.RTx{Mods: []uint32{65537}, Final: "DELETE", Outcome: "commit"})}})
+		nLock++
 	}
 
 	var st prog.Stats
